@@ -50,6 +50,7 @@ def hostId : Nat := 0
 
 structure St where
   timeout : Int                      -- peer.PeerEntryTimeout (ns)
+  fixed : Bool := false              -- model of the repaired `UpdateFromConfig` (see `clampCfg`)
   cfg : Cfg := {}
   now : Int := 0
   reports : Reports := []            -- stressLevels
@@ -76,6 +77,11 @@ structure Ev where
   before : Bool       -- Stressed() before
   after : Bool        -- Stressed() after
   deriving Repr, DecidableEq
+
+/-- The proposed repair of `UpdateFromConfig`: a deactivation level above the activation level is
+replaced by the activation level.  Only used when `St.fixed` is set; the code as it is stores the
+configuration unchanged. -/
+def clampCfg (c : Cfg) : Cfg := if c.act < c.deact then { c with deact := c.act } else c
 
 /-- `!(Clock.Since(ts) > PeerEntryTimeout)` -/
 def fresh (timeout now : Int) (_ : Nat) (e : Nat × Int) : Bool := !decide (now - e.2 > timeout)
@@ -118,22 +124,23 @@ def step (s : St) : Op → St × Option Ev
   | .adv d => ({ s with now := s.now + d }, none)
   | .peer id l => ({ s with reports := AList.put s.reports id (l, s.now) }, none)
   | .junk => (s, none)
-  | .reload c => ({ s with cfg := c }, none)
+  | .reload c => ({ s with cfg := if s.fixed then clampCfg c else c }, none)
   | .recalc loc => let r := recalc s loc; (r.1, some r.2)
 
-def init (timeout : Int) : St := { timeout := timeout }
+def init (timeout : Int) (fixed : Bool := false) : St := { timeout := timeout, fixed := fixed }
 
 /-- state and the recalculations so far, most recent first -/
 def stepE (p : St × List Ev) (o : Op) : St × List Ev :=
   let r := step p.1 o
   (r.1, match r.2 with | some e => e :: p.2 | none => p.2)
 
-def runE (timeout : Int) (ops : List Op) : St × List Ev := ops.foldl stepE (init timeout, [])
+def runE (timeout : Int) (ops : List Op) (fixed : Bool := false) : St × List Ev :=
+  ops.foldl stepE (init timeout fixed, [])
 
-def run (timeout : Int) (ops : List Op) : St := (runE timeout ops).1
+def run (timeout : Int) (ops : List Op) (fixed : Bool := false) : St := (runE timeout ops fixed).1
 
 /-- all recalculations of a history, most recent first -/
-def trace (timeout : Int) (ops : List Op) : List Ev := (runE timeout ops).2
+def trace (timeout : Int) (ops : List Op) (fixed : Bool := false) : List Ev := (runE timeout ops fixed).2
 
 /-! ## Specification vocabulary -/
 
